@@ -42,6 +42,9 @@ class Rig:
 
 def _frame_ok(rig, expect, tag):
     """the last request is one 8-byte frame on 0x7E5 with exactly the expected bytes"""
+    if not rig.sent:
+        sx.fail("no request frame was sent", tag + "/not-sent")
+        return
     cid, data, remote = rig.sent[-1]
     f = sx.items(data)
     sx.observe("frame", data)
@@ -52,26 +55,48 @@ def _frame_ok(rig, expect, tag):
                  tag + "/bytes")
 
 
-def framing(which):
-    """every public request: 8 bytes on 0x7E5, cs and little-endian fields per CiA 305, rest zero"""
+def framing(which, before=None):
+    """every public request: 8 bytes on 0x7E5, cs and little-endian fields per CiA 305, rest zero - also when the
+    same master has served another request before (`before`)"""
     LssError = sx.mod("canopen.lss").LssError
     state = {}
 
     def reply(frame):
         f = sx.items(frame)
         cs = f[0]
-        if which in ("configure_node_id", "configure_bit_timing", "store_configuration"):
+        if bool((cs == 0x11) | (cs == 0x13) | (cs == 0x17)):
             return [sx.mkbytes([cs, 0, 0, 0, 0, 0, 0, 0])]
-        if which == "inquire_node_id":
+        if bool(cs == 0x5E):
             return [sx.mkbytes([0x5E, state["nid"], 0, 0, 0, 0, 0, 0])]
-        if which == "inquire_lss_address":
+        if bool((cs >= 0x5A) & (cs <= 0x5D)):
             return [sx.mkbytes([cs] + le32(state["val"]) + [0, 0, 0])]
-        if which == "selective" and bool(cs == 0x43):
+        if bool(cs == 0x43):
             return [sx.mkbytes([0x44, 0, 0, 0, 0, 0, 0, 0])]
         return []
     rig = Rig(reply=reply)
     lss = rig.lss
-    tag = "C18/framing/" + which
+    if before is not None:
+        if before == "activate_bit_timing":
+            lss.activate_bit_timing(sx.fresh_int("delay0", 1, 0xFFFF))
+        elif before == "inquire_node_id":
+            state["nid"] = sx.fresh_byte("nid0")
+            lss.inquire_node_id()
+        elif before == "configure_node_id":
+            lss.configure_node_id(sx.fresh_byte("nid0"))
+        elif before == "configure_bit_timing":
+            lss.configure_bit_timing(sx.fresh_byte("idx0"))
+        elif before == "switch_global":
+            lss.send_switch_state_global(sx.fresh_byte("mode0"))
+        elif before == "inquire_lss_address":
+            state["val"] = sx.fresh_int("val0", 0, 0xFFFFFFFF)
+            lss.inquire_lss_address(0x5A + sx.choice(4, "part0"))
+        elif before == "store_configuration":
+            lss.store_configuration()
+        elif before == "selective":
+            lss.send_switch_state_selective(*[sx.fresh_int("q%d" % i, 0, 0xFFFFFFFF) for i in range(4)])
+        del rig.sent[:]
+        sx.reach("framing-history")
+    tag = "C18/framing/" + which + ("" if before is None else "/after-" + before)
     if which == "switch_global":
         mode = sx.fresh_byte("mode")
         lss.send_switch_state_global(mode)
@@ -297,6 +322,9 @@ def jobs(tier):
     for w in ("switch_global", "configure_node_id", "configure_bit_timing", "activate_bit_timing",
               "store_configuration", "inquire_node_id", "inquire_lss_address", "selective"):
         out.append(dict(func="framing", params=dict(which=w)))
+        for b in ("activate_bit_timing", "inquire_node_id", "configure_node_id", "configure_bit_timing", "switch_global",
+                  "inquire_lss_address", "store_configuration", "selective"):
+            out.append(dict(func="framing", params=dict(which=w, before=b)))
     for w in ("configure_node_id", "configure_bit_timing", "store_configuration", "inquire_node_id",
               "inquire_lss_address"):
         for mode in ("reply", "silence"):
@@ -339,7 +367,7 @@ META = dict(
                     "the obsolete identify-remote-slave services"],
     assumptions=["reference slave written from CiA 305 (fast-scan state machine with LSSPos/LSSSub/LSSNext)"],
     stubs=["struct", "queue", "time.sleep", "Network.send_message replaced", "logging"],
-    required_reach=["framing-switch_global", "framing-configure_node_id", "framing-configure_bit_timing",
+    required_reach=["framing-history", "framing-switch_global", "framing-configure_node_id", "framing-configure_bit_timing",
                     "framing-activate_bit_timing", "framing-store_configuration", "framing-inquire_node_id",
                     "framing-inquire_lss_address", "framing-selective", "reply-ok", "reply-error", "reply-silence",
                     "fastscan", "fastscan-none", "after-scan", "late-reply", "fastscan-twice"],
